@@ -42,7 +42,7 @@ func init() {
 	sim.Register(&sim.Check{
 		ID: "C12", Title: "An allocation's challenge pool equals its blobbers' outstanding values", World: "ledger",
 		Gen: c12.Gen, Exec: c12.Exec,
-		Quick: sim.Budget{Runs: 256, WallS: 80}, Thorough: sim.Budget{Runs: 12000, WallS: 1300},
+		Quick: sim.Budget{Runs: 256, WallS: 70}, Thorough: sim.Budget{Runs: 12000, WallS: 1300}, RunsPerProc: 16,
 		LevelText: "seeded search over storage histories: allocations, client-signed write markers of positive and negative size (v1 and chained v2) committed by blobbers, generated challenges answered with validator tickets (pass / fail / late / malformed), size extensions, blobber replacement incl. killed blobbers, finalize / cancel; after every applied transaction every open allocation's challenge pool balance must equal the sum of its blobbers' ChallengePoolIntegralValue, and no pool record may exist without its allocation",
 		LevelNote: decodeNote + "; enterprise allocations (no challenge pool by construction) are only checked for having no pool and no outstanding value",
 		Technique: technique, DesignRef: "6/C12", Regime: "single-threaded event loop", Components: components,
@@ -52,7 +52,7 @@ func init() {
 	sim.Register(&sim.Check{
 		ID: "C13", Title: "Blobber capacity and offers track the open allocations", World: "ledger",
 		Gen: c13.Gen, Exec: c13.Exec,
-		Quick: sim.Budget{Runs: 256, WallS: 80}, Thorough: sim.Budget{Runs: 12000, WallS: 1300},
+		Quick: sim.Budget{Runs: 256, WallS: 70}, Thorough: sim.Budget{Runs: 12000, WallS: 1300}, RunsPerProc: 16,
 		LevelText: "seeded search over histories of allocation create / extend / add and replace blobber / finalize / cancel and blobber settings updates, kills and shutdowns (repeated, by owner, delegate and strangers); after every applied transaction, for every blobber (dead ones included): Allocated == sum of its blobber-allocation sizes over open allocations, stake pool TotalOffers == sum of the same allocations' Offer(), and Allocated <= Capacity whenever an allocation was newly assigned to it in that transaction",
 		LevelNote: decodeNote + "; a discrepancy is reported once, on the transaction that changes it; Offer() is the shipped method evaluated on the decoded record",
 		Technique: technique, DesignRef: "6/C13, 8", Regime: "single-threaded event loop", Components: components,
@@ -62,7 +62,7 @@ func init() {
 	sim.Register(&sim.Check{
 		ID: "C14", Title: "Closing an allocation refunds the rest exactly once", World: "ledger",
 		Gen: c14.Gen, Exec: c14.Exec,
-		Quick: sim.Budget{Runs: 256, WallS: 80}, Thorough: sim.Budget{Runs: 12000, WallS: 1300},
+		Quick: sim.Budget{Runs: 256, WallS: 70}, Thorough: sim.Budget{Runs: 12000, WallS: 1300}, RunsPerProc: 16,
 		LevelText: "seeded search over allocation histories with repeated finalize / cancel by owner, blobbers, strangers and the contract owner, before / at / after expiry (clock steps relative to each allocation's expiry), and locks, markers and updates after closing; on every successful close: first and only close of that id, caller and time as the statement demands, allocation and challenge-pool records gone, each blobber credited at most its outstanding challenge value plus the configured cancellation charge, the owner's wallet credited exactly write pool + challenge pool - what the blobbers were credited; no later operation on the id succeeds",
 		LevelNote: decodeNote + "; 'credited' is the increase of the reward counters in the blobbers' stake pools; the configured charge is cancellation_charge x allocation cost recomputed from the decoded terms (+1 token rounding)",
 		Technique: technique, DesignRef: "6/C14", Regime: "single-threaded event loop", Components: components,
@@ -72,7 +72,7 @@ func init() {
 	sim.Register(&sim.Check{
 		ID: "C15", Title: "Read markers charge each read exactly once", World: "ledger",
 		Gen: c15.Gen, Exec: c15.Exec,
-		Quick: sim.Budget{Runs: 256, WallS: 80}, Thorough: sim.Budget{Runs: 12000, WallS: 1300},
+		Quick: sim.Budget{Runs: 256, WallS: 70}, Thorough: sim.Budget{Runs: 12000, WallS: 1300}, RunsPerProc: 16,
 		LevelText: "seeded search over sequences of client-signed read markers per (blobber, client, allocation) with counters up / equal / down / zero / beyond the read pool, byte-identical replays, wrong signers, foreign keys, tampered counters, timestamps outside the allocation, redeemed by blobbers or strangers in any order; for every accepted marker the oracle re-verifies the signature itself, the read pool of that client is debited by read price x (new - old counter) x 64 KB and nothing else, counters in state never decrease and equal the highest redeemed counter",
 		LevelNote: decodeNote + "; tolerance of the charge: 1 token + 2^-48 relative (the contract computes in float64); with an ed25519 chain every marker is rejected by the contract's BLS-only client-id check (runs counted, nothing to compare)",
 		Technique: technique, DesignRef: "6/C15", Regime: "single-threaded event loop", Components: components,
@@ -82,7 +82,7 @@ func init() {
 	sim.Register(&sim.Check{
 		ID: "C24", Title: "Free-storage grants stay within assigner limits and redeem once", World: "ledger",
 		Gen: c24.Gen, Exec: c24.Exec,
-		Quick: sim.Budget{Runs: 256, WallS: 80}, Thorough: sim.Budget{Runs: 12000, WallS: 1300},
+		Quick: sim.Budget{Runs: 256, WallS: 70}, Thorough: sim.Budget{Runs: 12000, WallS: 1300}, RunsPerProc: 16,
 		LevelText: "seeded search over redemption sequences across several assigners: valid, forged, byte-identically replayed, re-signed with a used nonce, over the individual limit, over the total limit, redeemed by someone else than the recipient, amount / blobbers / recipient altered after signing, unknown assigner, assigner registration by strangers; for every accepted grant the oracle re-verifies the assigner signature itself against the key the contract owner registered, checks recipient == sender == owner of the single new allocation, first use of the nonce, amount <= individual limit, running total <= total limit and == the recorded redeemed amount, owner wallet debit <= amount",
 		LevelNote: decodeNote,
 		Technique: technique, DesignRef: "6/C24", Regime: "single-threaded event loop", Components: components,
